@@ -80,6 +80,7 @@ struct Run {
     /// for each waiting-ready source: ids served since it became ready at its head
     served_while_waiting: Vec<BTreeSet<usize>>,
     merged_ended: bool,
+    dead: bool,
 }
 
 fn parse_tok(s: &str) -> Option<Tok> {
@@ -131,6 +132,7 @@ impl Run {
             finished: vec![false; n],
             served_while_waiting: vec![BTreeSet::new(); n],
             merged_ended: false,
+            dead: false,
         }
     }
 
@@ -145,7 +147,16 @@ impl Run {
         self.shared.lock().unwrap().polled.clear();
         let waker = self.log.waker(0);
         let mut cx = Context::from_waker(&waker);
-        let r = self.merged.as_mut().poll_next(&mut cx);
+        let merged = &mut self.merged;
+        let r = match hv_common::catch(std::panic::AssertUnwindSafe(|| merged.as_mut().poll_next(&mut cx))) {
+            Ok(r) => r,
+            Err(msg) => {
+                // index out of bounds / unwrap on a removed slot inside poll_next
+                rec.check(false, "panic-in-poll-next", &msg);
+                self.dead = true;
+                return "panic".into();
+            }
+        };
         let polled = self.shared.lock().unwrap().polled.clone();
         self.log.take();
         let (len, cur) = self.merged.verif_state();
@@ -251,6 +262,7 @@ fn exec(run: &mut Option<Run>, line: &str, rec: &mut Recorder) -> String {
             None => "bad-op".into(),
         },
         ["next"] => match run.as_mut() {
+            Some(r) if r.dead => "dead".into(),
             Some(r) => r.next(rec),
             None => "bad-op".into(),
         },
